@@ -8,6 +8,7 @@ import Oracle.C11Create
    count query are run at quiescence.
    c11w ssr | c11w reader → ok | lost | crash   (the read of one request with the rotation inside a check-then-look-up
    window; Model/Conc.lean, namespace ReadOne)
+   c11c <S> <label> … → get-or-create of the segstore table: Oracle/C11Create.lean (Model/ConcCreate.lean)
    suite "concstress":  c11stress <seed> <procs> <ms> <indexes> <race> → "ok" (exploration: the model has no
    opinion on timing; the worker checks the property statement directly). -/
 namespace Oracle.C11
